@@ -4,6 +4,8 @@ package scalekit
 
 import (
 	"fmt"
+	"regexp"
+	"strings"
 
 	"github.com/openconfig/goyang/pkg/yang"
 	"verif/mc/core"
@@ -15,6 +17,60 @@ type Case struct {
 	Shape string `json:"shape"`
 	N     int    `json:"n"`
 	V     int    `json:"variant,omitempty"`
+	// X: the same program at the crossing with a second dimension (see Crossings): its prefixes
+	// respelt in an awkward but legal class, and / or parse options that do not change what is built
+	X int `json:"crossed_with,omitempty"`
+}
+
+// Crossings names the second dimensions a size sweep is crossed with.
+var Crossings = []string{"", "dotted prefixes", "upper-case prefixes with an underscore", "prefixes of 64 bytes and more", "options StoreUses and IgnoreSubmoduleCircularDependencies", "dotted prefixes under those options"}
+
+// X is the crossing of the case being checked (set by Run; harnesses read it through Text and NewModules).
+var X int
+
+var prefixDecl = regexp.MustCompile(`\bprefix ([A-Za-z_][A-Za-z0-9_.-]*);`)
+
+func respell(p string) string {
+	switch X {
+	case 1, 5:
+		return p + ".x." + p
+	case 2:
+		return strings.ToUpper(p) + "_"
+	case 3:
+		return p + strings.Repeat("-"+p, 64/(len(p)+1)+1)
+	}
+	return p
+}
+
+// Text returns a module text as the current crossing spells it: every prefix the text declares (its
+// own, those of its imports, that of belongs-to) is respelt, in the declaration and wherever it is used.
+func Text(text string) string {
+	if X == 0 || X == 4 {
+		return text
+	}
+	seen := map[string]bool{}
+	for _, m := range prefixDecl.FindAllStringSubmatch(text, -1) {
+		seen[m[1]] = true
+	}
+	for p := range seen {
+		np := respell(p)
+		text = strings.ReplaceAll(text, "prefix "+p+";", "prefix "+np+";")
+		use := regexp.MustCompile(`(^|[^A-Za-z0-9_.-])` + regexp.QuoteMeta(p) + `:`)
+		// (twice: adjacent uses share the separating character)
+		text = use.ReplaceAllString(text, "${1}"+np+":")
+		text = use.ReplaceAllString(text, "${1}"+np+":")
+	}
+	return text
+}
+
+// NewModules returns a module set with the options of the current crossing.
+func NewModules() *yang.Modules {
+	ms := yang.NewModules()
+	if X == 4 || X == 5 {
+		ms.ParseOptions.StoreUses = true
+		ms.ParseOptions.IgnoreSubmoduleCircularDependencies = true
+	}
+	return ms
 }
 
 // Verdict of a check: Fp == "" means the case holds.
@@ -26,6 +82,9 @@ func Bad(fp, exp, obs string) Verdict {
 }
 
 const Shards = 8
+
+// NoCross: shapes whose oracle spells prefixes itself (they are not crossed).
+var NoCross = map[string]bool{}
 
 // ShardNames returns the shard names "scale/0".."scale/7".
 func ShardNames() []string {
@@ -40,6 +99,24 @@ func ShardNames() []string {
 func Run(c *core.Ctx, shard string, cases []Case, chk func(Case) Verdict, wrap func(Case) any) {
 	var k int
 	fmt.Sscanf(shard, "scale/%d", &k)
+	// every case plainly, and once more at a crossing (quick: one crossing per case, taking turns;
+	// thorough: all of them)
+	var all []Case
+	for i, cs := range cases {
+		all = append(all, cs)
+		if NoCross[cs.Shape] {
+			continue
+		}
+		for x := 1; x < len(Crossings); x++ {
+			if c.Tier == "thorough" || x == 1+i%(len(Crossings)-1) {
+				cx := cs
+				cx.X = x
+				all = append(all, cx)
+			}
+		}
+	}
+	cases = all
+	defer func() { X = 0 }()
 	for i, cs := range cases {
 		if i%Shards != k {
 			continue
@@ -47,6 +124,7 @@ func Run(c *core.Ctx, shard string, cases []Case, chk func(Case) Verdict, wrap f
 		if c.Expired() {
 			return
 		}
+		X = cs.X
 		caseNo, run := c.Begin()
 		if c.Skip(caseNo, run, wrap(cs)) {
 			continue
@@ -63,6 +141,8 @@ func Run(c *core.Ctx, shard string, cases []Case, chk func(Case) Verdict, wrap f
 		if v.Fp != "" {
 			c.Outcome("FAIL:" + v.Fp)
 			c.Fail(caseNo, nil, "scale:"+v.Fp, wrap(cs), v.Exp, v.Obs)
+		} else if cs.X > 0 {
+			c.Outcome("scale-" + cs.Shape + "-holds:crossed")
 		} else {
 			c.Outcome("scale-" + cs.Shape + "-holds")
 		}
@@ -71,13 +151,13 @@ func Run(c *core.Ctx, shard string, cases []Case, chk func(Case) Verdict, wrap f
 
 // Load parses the files in the given order (reverse: last first) and processes.
 func Load(files []dump.File, reverse bool) (*yang.Modules, []error, error) {
-	ms := yang.NewModules()
+	ms := NewModules()
 	for i := range files {
 		f := files[i]
 		if reverse {
 			f = files[len(files)-1-i]
 		}
-		if err := ms.Parse(f.Text, f.Name); err != nil {
+		if err := ms.Parse(Text(f.Text), f.Name); err != nil {
 			return ms, nil, err
 		}
 	}
